@@ -572,10 +572,12 @@ def load_known():
     (same schema; merged into the single file by tools/merge_known.py)."""
     out = []
     seen = set()
-    paths = [os.path.join(VERIF, "KNOWN_FINDINGS.json")]
+    # the per-property fragments are the working copies and take precedence over the merged file
+    paths = []
     fd = os.path.join(VERIF, "known_findings")
     if os.path.isdir(fd):
         paths += [os.path.join(fd, f) for f in sorted(os.listdir(fd)) if f.endswith(".json")]
+    paths.append(os.path.join(VERIF, "KNOWN_FINDINGS.json"))
     for p in paths:
         if not os.path.exists(p):
             continue
